@@ -29,7 +29,6 @@ def defects(rng):
         ("unknown spreadMethod", [f for f in VECTOR if "untouched" not in f and f != "glyf"], [("emoji_u1f9d0.svg", g % 'spreadMethod="bogus"')], []),
         ("palette index conflict", [f for f in VECTOR if "colr" in f], [("emoji_u1f9d0.svg", good(1, "var(--color1, red)")), ("emoji_u1f9d1.svg", good(2, "var(--color1, blue)"))], []),
         ("bitmap too big for CBDT", ["cbdt"], [("emoji_u1f9d0.svg", good(1))], ["--bitmap_resolution", "300"]),
-        ("missing viewBox", [f for f in VECTOR], [("emoji_u1f9d0.svg", '<svg xmlns="http://www.w3.org/2000/svg"><path d="M10,10 L40,10 L40,40 L10,40 Z"/></svg>')], []),
     ]
 
 
@@ -119,7 +118,7 @@ def main(argv):
     report = Report("C17", tier, common.seed_from_env())
     report.rule = (
         "real CLI runs: one defect class (duplicate codepoints / sequence / file name / colliding glyph names, malformed XML, "
-        "unparsable colour, unknown spreadMethod, palette index conflict, oversize CBDT bitmap, missing viewBox) at a random "
+        "unparsable colour, unknown spreadMethod, palette index conflict, oversize CBDT bitmap) at a random "
         "position among 0-5 valid sources, in a colour format the class applies to; must exit non-zero and leave no fresh font; a "
         "valid control must succeed. In process: acceptance of glyph-name lists vs the model"
     )
